@@ -450,8 +450,21 @@ public:
       uf_domain_t right(o);
       typename ttbl_t::term_map_t gen_map /*unused*/;
 
+      // The variables that only appear in right are unconstrained in
+      // left. They get fresh terms in left so that they are compared
+      // too (otherwise, e.g., top would be included in any value).
+      {
+        std::vector<variable_t> right_vars;
+        right_vars.reserve(right.m_var_map.size());
+        for (auto p : right.m_var_map) {
+          right_vars.push_back(p.first);
+        }
+        for (auto const &v : right_vars) {
+          left.term_of_var(v);
+        }
+      }
+
       // Build up the mapping of right onto left, variable by variable.
-      // Assumption: the set of variables in left & right are common.
       for (auto p : left.m_var_map) {
         if (!left.m_ttbl.map_leq(right.m_ttbl, left.term_of_var(p.first),
                                  right.term_of_var(p.first), gen_map))
